@@ -44,7 +44,10 @@ let fbf (x : bdd) (y : bdd) fa fb fo op : bdd outcome =
    the Rust `while` loop; proved equal to the reference definitions for well-formed operands and total tables in
    Proofs/ApplyLimitStack.v apply2_limit_stack_eq, Proofs/DryStack.v dry_run_stack_eq, Proofs/Apply3Stack.v apply3_stack_eq)
    as long as no operand is above fast_threshold nodes; above it (association-list tables: quadratic) the fast twins
-   stay in charge.  The nested apply has no stack machine: `stack` = reference there. *)
+   stay in charge.  The nested apply (nested / exists / for_all / bin_exists / bin_for_all) has its own step-faithful
+   machines (Model/NestedStack.v: outer loop, inner loop run to completion inside one outer step, fix_bdd_alignment
+   copy loop; Proofs/NestedStack.v nested_apply_stack_eq: equal to the faithful recursion for well-formed operands and
+   two total tables), selected by `stack` under the same size rule (`both_nested`). *)
 let is_big (x : bdd) = longer_than x fast_threshold
 let use_fast (operands : bdd list) : bool =
   match engine with
@@ -129,9 +132,9 @@ let or_and_like (inner : op2) : bool =
   let total_is f = List.for_all (fun (a, b) -> inner (Some a) (Some b) = Some (f a b))
       [(false,false);(false,true);(true,false);(true,true)] in
   table_ok inner && (total_is (||) || total_is (&&))
-let both_nested (operands : bdd list) (outer : op2) (reference : unit -> bdd outcome) (fast : unit -> bdd outcome)
-    (compositional : unit -> bdd outcome) : bdd outcome =
-  let faithful = if use_fast operands then fast () else reference () in
+let both_nested (operands : bdd list) (outer : op2) ~(stack : unit -> bdd outcome) (reference : unit -> bdd outcome)
+    (fast : unit -> bdd outcome) (compositional : unit -> bdd outcome) : bdd outcome =
+  let faithful = pick3 operands ~stack ~fast ~reference in
   (* the compositional model is a chain of reference binary applies (quadratic): only when no operand is above
      the threshold *)
   if not (List.exists is_big operands) then begin
@@ -191,25 +194,28 @@ let run (c : s list) : s option =
   | A "var_for_all" :: x :: v :: _ -> e_obdd (var_for_all (d_bdd x) (d_n v))
   | A "exists" :: x :: vs :: _ ->
     let b = d_bdd x and l = d_list d_n vs in
-    e_obdd (both_nested [b] op_and (fun () -> bdd_exists_faithful b l) (fun () -> bdd_exists_faithful_fast b l) (fun () -> bdd_exists b l))
+    e_obdd (both_nested [b] op_and ~stack:(fun () -> bdd_exists_stack b l) (fun () -> bdd_exists_faithful b l) (fun () -> bdd_exists_faithful_fast b l) (fun () -> bdd_exists b l))
   | A "for_all" :: x :: vs :: _ ->
     let b = d_bdd x and l = d_list d_n vs in
-    e_obdd (both_nested [b] op_and (fun () -> bdd_for_all_faithful b l) (fun () -> bdd_for_all_faithful_fast b l) (fun () -> bdd_for_all b l))
+    e_obdd (both_nested [b] op_and ~stack:(fun () -> bdd_for_all_stack b l) (fun () -> bdd_for_all_faithful b l) (fun () -> bdd_for_all_faithful_fast b l) (fun () -> bdd_for_all b l))
   | A "bin_exists" :: t :: x :: y :: vs :: _ ->
     let a = d_bdd x and b = d_bdd y and l = d_list d_n vs and op = op2_of t in
-    e_obdd (both_nested [a; b] op (fun () -> binary_op_with_exists_faithful a b op l)
+    e_obdd (both_nested [a; b] op ~stack:(fun () -> binary_op_with_exists_stack a b op l)
+              (fun () -> binary_op_with_exists_faithful a b op l)
               (fun () -> binary_op_with_exists_faithful_fast a b op l) (fun () -> binary_op_with_exists a b op l))
   | A "bin_for_all" :: t :: x :: y :: vs :: _ ->
     let a = d_bdd x and b = d_bdd y and l = d_list d_n vs and op = op2_of t in
-    e_obdd (both_nested [a; b] op (fun () -> binary_op_with_for_all_faithful a b op l)
+    e_obdd (both_nested [a; b] op ~stack:(fun () -> binary_op_with_for_all_stack a b op l)
+              (fun () -> binary_op_with_for_all_faithful a b op l)
               (fun () -> binary_op_with_for_all_faithful_fast a b op l) (fun () -> binary_op_with_for_all a b op l))
   | A "nested" :: tout :: tin :: x :: y :: trig :: _ ->
     let inner = op2_of tin in
     let is_and = (inner (Some false) (Some true) = Some false) in
     let a = d_bdd x and b = d_bdd y and tr = d_bits 'v' trig and out = op2_of tout in
     let reference () = nested_apply_faithful a b tr out inner and fast () = nested_apply_faithful_fast a b tr out inner in
-    if or_and_like inner then e_obdd (both_nested [a; b] out reference fast (fun () -> binary_op_nested a b tr out is_and))
-    else e_obdd (if use_fast [a; b] then fast () else reference ())
+    let stack () = binary_op_nested_stack a b tr out inner in
+    if or_and_like inner then e_obdd (both_nested [a; b] out ~stack reference fast (fun () -> binary_op_nested a b tr out is_and))
+    else e_obdd (pick3 [a; b] ~stack ~fast ~reference)
   | A "var_select" :: x :: v :: c :: _ -> e_obdd (var_select (d_bdd x) (d_n v) (d_bool c))
   | A "select" :: x :: lits :: _ -> e_obdd (select (d_bdd x) (d_list (d_pair d_n d_bool) lits))
   | A "var_restrict" :: x :: v :: c :: _ -> e_obdd (restrict_both (d_bdd x) [(d_n v, d_bool c)])
